@@ -139,6 +139,9 @@ fn main() {
                     v as f32 as f64
                 })
                 .collect();
+            // one case in eight far from the unit scale (inside the f32 range, since every program
+            // also runs on the 32-bit types)
+            let x: Vec<f64> = if ci % 8 == 5 { x.iter().map(|v| (v * (10.0f64).powi(rng.int(-4, 4) as i32)) as f32 as f64).collect() } else { x };
             let cfg = GenCfg { max_nodes: 4 + rng.below(20), ninputs: n, f32: true, selects: false, allow_sph: true };
             let (prog, vals) = generate(&mut rng, &cfg, &x);
             let _ = vals;
